@@ -55,7 +55,8 @@ VARIABLES disk,     \* f -> [ex, v]            the JSON file (raw)
           open,     \* h -> BOOLEAN            the handle has created its document object
           mem,      \* h -> value              that object's in-memory copy (_data)
           buf,      \* f -> [in, contents, orig, snap]   class level buffer entry
-          reg,      \* sequence of handles     _buffered_collections in insertion order
+          reg,      \* sequence of [h, dead]   _buffered_collections in insertion order (dead: the document object was
+                    \*                         dropped by remove() inside a block; it stays registered with an empty copy)
           depth, cap, capStack,
           writers,  \* f -> set of handles that wrote f inside the current outermost block (ghost)
           dev,      \* set of deviations that fired in this behaviour (ghost; "D1", "D2")
@@ -166,21 +167,24 @@ RExc(e) == [exc |-> e, v |-> JNull]
 
 St == [disk |-> disk, mem |-> mem, buf |-> buf, reg |-> reg, dev |-> dev]
 BufSize(b) == SeqSum([i \in 1..Len(FileSeq) |-> IF b[FileSeq[i]].in THEN JsonLen(b[FileSeq[i]].contents) ELSE 0])
+Live(h) == [h |-> h, dead |-> FALSE]
 InSeq(s, x) == \E i \in 1..Len(s) : s[i] = x
-Register(st, h) == IF InSeq(st.reg, h) THEN st ELSE [st EXCEPT !.reg = Append(@, h)]
+Register(st, h) == IF InSeq(st.reg, Live(h)) THEN st ELSE [st EXCEPT !.reg = Append(@, Live(h))]
 \* mem[h] := _update(data)
 MergeInto(st, h, data) == LET r == MergeMap(st.mem[h], data) IN
                           [st EXCEPT !.mem[h] = r, !.dev = @ \cup TopLoss(st.mem[h], data)]
 
 \* SerializedFileBufferedCollection._flush of one document object
-FlushOne(st, h) ==
-  LET f == h[1]  e == st.buf[f] IN
+FlushOne(st, r) ==
+  LET h == r.h  f == h[1]  e == st.buf[f]
+      own == IF r.dead THEN EmptyDoc ELSE st.mem[h] IN    \* a dropped object was cleared by remove()
   IF ~e.in THEN st                                       \* another object of the same file flushed first
   ELSE LET differs == IF FixedD1 THEN e.contents # e.orig    \* repaired: decide by the cached contents
-                      ELSE st.mem[h] # e.orig                \* DEVIATION D1: decides by ITS OWN copy
+                      ELSE own # e.orig                      \* DEVIATION D1: decides by ITS OWN copy
        IN IF differs
-          THEN LET s1 == MergeInto(st, h, e.contents) IN
-               [s1 EXCEPT !.disk[f] = [ex |-> TRUE, v |-> s1.mem[h]], !.buf[f] = NoEntry]
+          THEN LET merged == MergeMap(own, e.contents) IN
+               [st EXCEPT !.mem[h] = IF r.dead THEN @ ELSE merged, !.dev = @ \cup TopLoss(own, e.contents),
+                          !.disk[f] = [ex |-> TRUE, v |-> merged], !.buf[f] = NoEntry]
           ELSE [st EXCEPT !.buf[f] = NoEntry,
                           !.dev = IF e.contents # e.orig /\ ~(e.orig.t = "map" /\ JEq(e.contents, e.orig)) THEN @ \cup {"D1"} ELSE @]
 RECURSIVE FlushSeq(_, _)
@@ -203,15 +207,16 @@ Load(st, h) ==
            s3 == IF BufSize(s2.buf) > cap THEN FlushAll(s2) ELSE s2
        IN MergeInto(s3, h, blob)
 
+SavePre(st, h) ==                \* _save_to_buffer up to (not including) the capacity check
+  LET f == h[1]  s1 == Register(st, h) IN
+  IF s1.buf[f].in THEN [s1 EXCEPT !.buf[f].contents = s1.mem[h]]
+  ELSE [s1 EXCEPT !.buf[f] = [in |-> TRUE, contents |-> s1.mem[h],
+                              orig |-> IF s1.disk[f].ex THEN s1.disk[f].v ELSE JNull, snap |-> s1.disk[f]]]
 Save(st, h) ==
   LET f == h[1] IN
   IF depth = 0
   THEN [st EXCEPT !.disk[f] = [ex |-> TRUE, v |-> st.mem[h]]]
-  ELSE LET s1 == Register(st, h)
-           s2 == IF s1.buf[f].in THEN [s1 EXCEPT !.buf[f].contents = s1.mem[h]]
-                 ELSE [s1 EXCEPT !.buf[f] = [in |-> TRUE, contents |-> s1.mem[h],
-                                             orig |-> IF s1.disk[f].ex THEN s1.disk[f].v ELSE JNull, snap |-> s1.disk[f]]]
-       IN IF BufSize(s2.buf) > cap THEN FlushAll(s2) ELSE s2
+  ELSE LET s2 == SavePre(st, h) IN IF BufSize(s2.buf) > cap THEN FlushAll(s2) ELSE s2
 
 SetMem(st, h, v) == [st EXCEPT !.mem[h] = v]
 
@@ -376,6 +381,24 @@ RemoveJob(h) ==                  \* job.remove(); the next document access re-in
   /\ disk' = [disk EXCEPT ![h[1]] = Absent] /\ IdealIs(h[1], EmptyDoc) /\ CloseAll(h[1])
   /\ UNCHANGED <<buf, reg, depth, cap, capStack, writers, dev>>
   /\ Obs("remove", h, NoK, NoK, 0, "", JNull, ROk(JNull))
+\* job.remove(); job.init() INSIDE a block - supported by the code only while the document file is not on disk
+\* (otherwise the flush raises MetadataError by design), no other handle of the job holds a document object
+\* and the buffer is not at its capacity: remove() clears the document object INTO THE BUFFER before dropping it,
+\* the dropped object stays registered (with its empty copy) until the next flush.
+RemoveReinit(h) ==
+  LET f == h[1]
+      pre == SavePre(SetMem(St, h, EmptyDoc), h)
+      s1 == IF open[h] THEN pre ELSE St
+      s2 == [s1 EXCEPT !.reg = [i \in 1..Len(@) |-> IF @[i].h = h THEN [@[i] EXCEPT !.dead = TRUE] ELSE @[i]],
+                       !.mem[h] = EmptyDoc]
+  IN /\ depth > 0 /\ f \in JobFiles /\ ~disk[f].ex
+     /\ \A x \in HandlesOf(f) \ {h} : ~open[x]
+     /\ open[h] => BufSize(pre.buf) <= cap
+     /\ disk' = s2.disk /\ mem' = s2.mem /\ buf' = s2.buf /\ reg' = s2.reg /\ dev' = s2.dev
+     /\ open' = [open EXCEPT ![h] = FALSE]
+     /\ IdealIs(f, EmptyDoc) /\ Wrote(h)
+     /\ UNCHANGED <<depth, cap, capStack>>
+     /\ Obs("reinit", h, NoK, NoK, 0, "", JNull, ROk(JNull))
 RekeyJob(h) ==                   \* job.sp.r = <new>: the directory moves, the document moves with it
   /\ depth = 0 /\ h[1] \in JobFiles
   /\ CloseAll(h[1])
@@ -415,6 +438,7 @@ NextOp ==
        \/ "get" \in Ops /\ \E k \in {KA}, fm \in {"item", "attr", "get", "in"} : GetItem(h, k, fm)
        \/ "remove" \in Ops /\ RemoveJob(h)
        \/ "rekey" \in Ops /\ RekeyJob(h)
+       \/ "reinit" \in Ops /\ RemoveReinit(h)
   \/ "buffer" \in Ops /\ \E c \in Caps : EnterBuffered(c)
   \/ "buffer" \in Ops /\ ExitBuffered
 Next == NextOp /\ steps' = steps + 1
@@ -446,7 +470,7 @@ TypeOK == /\ depth \in 0..MaxNest /\ Len(capStack) = depth
 OutsideNothingBuffered == depth = 0 => reg = <<>> /\ \A f \in Files : ~buf[f].in
 \* the metadata check of a flush cannot fire: the file is unchanged since its entry was created
 EntriesFresh == \A f \in Files : buf[f].in => buf[f].snap = disk[f]
-EntriesRegistered == \A f \in Files : buf[f].in => \E i \in 1..Len(reg) : reg[i][1] = f
+EntriesRegistered == \A f \in Files : buf[f].in => \E i \in 1..Len(reg) : reg[i].h[1] = f
 NoDeviation == dev = {}
 \* deviations that a read through some handle would run into now (ghost, for attribution of OtherHandleSees / ReadOwnWrites)
 HypoDev == UNION {IF depth > 0 /\ buf[h[1]].in THEN TopLoss(mem[h], buf[h[1]].contents)
@@ -484,9 +508,9 @@ CapsTwo == {CapNone, [has |-> TRUE, c |-> 10]}
 CapsNoneOnly == {CapNone}
 CapsZero == {CapNone, [has |-> TRUE, c |-> 0]}
 OpsAll  == {"set", "del", "update", "setdefault", "pop", "clear", "reset", "nset", "append", "lset", "read", "get",
-            "setbad", "remove", "rekey", "buffer"}
-OpsDict == OpsAll \ {"buffer", "remove", "rekey"}
+            "setbad", "remove", "rekey", "reinit", "buffer"}
+OpsDict == OpsAll \ {"buffer", "remove", "rekey", "reinit"}
 OpsBuf  == {"set", "del", "clear", "reset", "read", "buffer"}
 OpsBufN == {"set", "nset", "append", "update", "pop", "read", "buffer"}
-OpsLife == {"set", "read", "reset", "remove", "rekey", "buffer"}
+OpsLife == {"set", "read", "reset", "remove", "rekey", "reinit", "buffer"}
 =============================================================================
